@@ -35,7 +35,10 @@ class Check(CheckBase):
             'details iff v==u, list-files and restore cover exactly the snapshots made under u\'s own key, delete of a '
             'snapshot of v!=u (alone or mixed with own ones) raises and causes zero backend mutations, clean/delete by u '
             'leave every object of other families byte-identical and never remove a chunk referenced by another user\'s '
-            'snapshot (online monitor), a same-family user re-snapshotting v\'s data uploads no chunk payload. '
+            'snapshot (online monitor), a same-family user re-snapshotting v\'s data uploads no chunk payload; (3) whole life cycles through '
+            '`python -m replicat` in child processes on the local backend (init, add-key independent / --shared / --clone in seeded order, '
+            'snapshots, list-snapshots, list-files, restore, wrong passwords), judged against the intended relationships with the '
+            'independent reader and the bytes on disk. '
             'class = (relationship kind of the pair, operation)')
     assumptions = ['access model: family = root of the shared chain; reader(s) = the exact key that made s (a clone has its own '
                    'user key); -vv logging is out of scope']
